@@ -99,6 +99,10 @@ def hedger_case(N, T, hedge_kind, deriv_kind, stepwise, portfolio=False, control
     def fn(c):
         env = cm.market(c, N, T, deriv_kind=deriv_kind, hedge_kind=hedge_kind, cost_sym=True)
         deriv, hedge = env["derivative"], env["hedge"]
+        if stepwise:
+            # a contract clause (cap on the payoff): the hedger's P&L is against the derivative's payoff *with* its clauses
+            cap = api.real(c, "cap")
+            deriv.add_clause("cap", lambda d, p: torch.minimum(p, p * 0 + cap))
         H = len(hedge) if hedge is not None else 1
         if deriv_kind == "variance_swap":
             inputs = ["underlier_spot", "volatility"] + (["prev_hedge"] if stepwise else [])
